@@ -339,12 +339,15 @@ def _mod(a, b):
         raise Concretised("mod on reals")
     if z3.is_int_value(b) and b.as_long() > 0:
         return a % b
-    # symbolic modulus: linearise a % b for a in [-2b, 3b), b > 0 (checked on the current path)
-    ok = z3.And(b > 0, a >= -2 * b, a < 3 * b)
+    # symbolic modulus: linearise a % b for a in [-4b, 5b), b > 0 (checked on the current path)
+    ok = z3.And(b > 0, a >= -4 * b, a < 5 * b)
     if ENG.mode == "sym":
         if ENG.feasible(z3.Not(ok)):
-            raise Concretised("mod with symbolic modulus outside the linearised range [-2n,3n)")
-    return z3.If(a < -b, a + 2 * b, z3.If(a < 0, a + b, z3.If(a < b, a, z3.If(a < 2 * b, a - b, a - 2 * b))))
+            raise Concretised("mod with symbolic modulus outside the linearised range [-4n,5n)")
+    res = a - 4 * b
+    for k in (3, 2, 1, 0, -1, -2, -3, -4):
+        res = z3.If(a < (k + 1) * b, a - k * b, res)
+    return res
 
 
 def _truediv(a, b):
@@ -497,6 +500,15 @@ class SymReal:
 
     def __float__(self):
         raise Concretised("float() of SymReal")
+
+    def __floor__(self):
+        return SymInt(z3.ToInt(self.z))
+
+    def __trunc__(self):
+        return SymInt(z3.If(self.z >= 0, z3.ToInt(self.z), -z3.ToInt(-self.z)))
+
+    def __ceil__(self):
+        return SymInt(-z3.ToInt(-self.z))
 
     def __format__(self, spec):
         raise Concretised("format of SymReal")
